@@ -10,6 +10,7 @@ ACTION_CONSTRAINT Export
 INVARIANT ReadsAgree
 PROPERTY HeaderEqualsView
 PROPERTY ViewValue
+PROPERTY AssignTakesValue
 PROPERTY OpOutcome
 PROPERTY RereadEqualsView
 PROPERTY HeaderIffNonEmpty
